@@ -402,7 +402,18 @@ func genExtension(g *prng.R, idx int) extSpec {
 		// withheld-from list over the extension's own types: only descendants of
 		// a domain type make sense; pick an extension type that extends a domain type
 		if g.Chance(1, 3) && len(es.Types) > 1 {
-			m["@wtf_without_property"] = []interface{}{ref(es.Types[len(es.Types)-1])}
+			// one or two extension types, any of them: one with descendants
+			// of its own (which stay without the property) as well as a leaf
+			var wl []interface{}
+			seen := map[string]bool{}
+			for k := 1 + g.Intn(2); len(wl) < k && len(seen) < len(es.Types); {
+				t := es.Types[g.Intn(len(es.Types))]
+				if !seen[t] {
+					seen[t] = true
+					wl = append(wl, ref(t))
+				}
+			}
+			m["@wtf_without_property"] = wl
 		}
 		members = append(members, m)
 	}
@@ -643,6 +654,66 @@ func main() {
 			continue
 		}
 		r.Count("extension_trees_built", 1)
+		// the same vocabulary through astool again, in fresh processes: the
+		// output must not depend on map order for the constructs only
+		// extension vocabularies have either
+		{
+			first := treeHashes(filepath.Join(tree, "streams"))
+			again := 3
+			if *tier == "thorough" {
+				again = 8
+			}
+			var wgx sync.WaitGroup
+			var mux sync.Mutex
+			diffs := map[string]bool{}
+			failed := ""
+			for k := 0; k < again; k++ {
+				wgx.Add(1)
+				go func(k int) {
+					defer wgx.Done()
+					d := filepath.Join(scratch, fmt.Sprintf("ext%d-again%d", x, k))
+					defer os.RemoveAll(d)
+					out, err := runAstool(astool, tree, d, []string{extFile})
+					mux.Lock()
+					defer mux.Unlock()
+					if err != nil {
+						if !envFailure(out) {
+							failed = tail(out, 20)
+						}
+						return
+					}
+					h := treeHashes(filepath.Join(d, "streams"))
+					// (the tree's streams directory also holds the few
+					// hand-written files; only generated ones are compared)
+					for f, v := range h {
+						if first[f] != v {
+							diffs[f] = true
+						}
+					}
+					for f := range first {
+						if _, ok := h[f]; !ok && strings.HasPrefix(filepath.Base(f), "gen_") {
+							diffs[f] = true
+						}
+					}
+				}(k)
+			}
+			wgx.Wait()
+			r.Count("extension_determinism_runs", again)
+			if failed != "" {
+				r.Violate(verdict.Sig{Rule: "C15.astool-failed", Site: "astool", Feature: "extension vocabulary: fails in one run, not in another"}, cas, failed)
+			}
+			if len(diffs) > 0 {
+				var fl []string
+				for f := range diffs {
+					fl = append(fl, f)
+				}
+				sort.Strings(fl)
+				if len(fl) > 6 {
+					fl = fl[:6]
+				}
+				r.Violate(verdict.Sig{Rule: "C15.non-deterministic", Site: "astool", Feature: "extension vocabulary"}, cas, fmt.Sprintf("%d generated files differ between runs on the same extension vocabulary, e.g. %v", len(diffs), fl))
+			}
+		}
 		// build streamsmon against the extension tree
 		bin := filepath.Join(scratch, fmt.Sprintf("streamsmon-ext%d", x))
 		modfile := filepath.Join(scratch, fmt.Sprintf("go-ext%d.mod", x))
